@@ -132,6 +132,55 @@ def run(ctx):
                         e = rng.choice(inst) + dt.timedelta(seconds=rng.choice([-1, 0, 1]))
                     now = T0 + dt.timedelta(days=8)
                 query(ctx, reader, fake, ids, s, e, now, rng.choice([None, None, {'even': True}]), 'random')
+    # long windows (weeks to months, across month and year boundaries, December included): sparse recordings over 14 months
+    fake = FakeS3()
+    with fake.installed():
+        start14 = dt.datetime(2021, 10, 3, 7, 30)
+        inst = [start14 + dt.timedelta(days=3 * i, hours=(5 * i) % 24) for i in range(140)]
+        ids = build(fake, inst, 'long')
+        reader = fake.cassette('r', key_prefix='long', read_only=True)
+        lrng = random.Random(ctx.seed + 5)
+        for qn in range(ctx.budget(120, 4000)):
+            s = start14 + dt.timedelta(days=lrng.randrange(-5, 420), hours=lrng.randrange(24))
+            e = s + dt.timedelta(days=lrng.choice([1, 10, 29, 30, 31, 32, 33, 45, 60, 90, 200, 400]), hours=lrng.randrange(24))
+            if lrng.random() < 0.25:
+                query(ctx, reader, fake, ids, s, None, inst[-1] + dt.timedelta(days=2), None, 'long-now')
+            else:
+                query(ctx, reader, fake, ids, s, e, inst[-1] + dt.timedelta(days=2), None, 'long')
+        ctx.count('long_window_queries')
+    # two lookups with different windows in flight at the same time on ONE cassette object (listings are lazy generators)
+    fake = FakeS3()
+    with fake.installed():
+        hours2 = [T0 + dt.timedelta(hours=h) for h in range(72)]
+        ids = build(fake, hours2, 'il')
+        reader = fake.cassette('r', key_prefix='il', read_only=True)
+        irng = random.Random(ctx.seed + 9)
+        fake.now = hours2[-1] + dt.timedelta(hours=3)
+        for qn in range(ctx.budget(40, 1500)):
+            wins = []
+            for _ in range(2):
+                a = irng.randrange(0, 70)
+                wins.append((hours2[a], hours2[min(71, a + irng.randrange(0, 40))]))
+            gens = [reader.iter_recording_ids('Op', start_date=w[0], end_date=w[1]) for w in wins]
+            got = [[], []]
+            alive = [0, 1]
+            try:
+                while alive:
+                    g = irng.choice(alive)
+                    try:
+                        got[g].append(next(gens[g]))
+                    except StopIteration:
+                        alive.remove(g)
+            except Exception as ex:
+                ctx.violation('interleaved time-window listings raised %s' % type(ex).__name__, {'windows': [list(map(str, w)) for w in wins]})
+                continue
+            for g in (0, 1):
+                exp = set(rid for rid, (i, t) in ids.items() if wins[g][0] <= t <= wins[g][1])
+                ctx.case(('interleaved', str(wins[0]), str(wins[1]), g))
+                ctx.count('interleaved_listings')
+                if set(got[g]) != exp or len(got[g]) != len(set(got[g])):
+                    ctx.violation('a time-window listing consumed while another listing of the same cassette was in flight is not exact',
+                                  {'windows': [list(map(str, w)) for w in wins], 'listing': g, 'outside': len(set(got[g]) - exp), 'missed': len(exp - set(got[g]))})
     ctx.sample({'recordings': 'one per hour from %s for 96 h' % T0, 'query': {'start': str(hours[20]), 'end': str(hours[30])},
                 'expected_ids': 11})
     ctx.sample({'start': str(hours[22]), 'end': str(hours[25]), 'note': 'window crossing midnight with end earlier in the day than start'})
